@@ -14,6 +14,7 @@ InRole(r, p) == \E i \in 1..Len(Positions[r]) : Positions[r][i] = p
 TRun ==
     /\ Ev.role \in Roles /\ InRole(Ev.role, Ev.pos)
     /\ Ev.outcome \in {"ok", "error"}
+    /\ ("fam" \in DOMAIN Ev => CliApplies(Ev.pos, Ev.level, Ev.fam))     \* classed mutants: the class exists at this position
     /\ role' = Ev.role /\ at' = 1
     /\ state' = IF Ev.outcome = "ok" THEN "done" ELSE "failed"
 TraceInit == Init /\ l = 1
